@@ -56,6 +56,25 @@ func c05Transport(c *C05Case, o *C05Obs) (out [][2]string) {
 				o.Valid, o.Err, o.Found, o.ValueText, o2.Valid, o2.Err, o2.Found, o2.ValueText)})
 		}
 	}
+	kind := "prim"
+	if c.Schema != nil && c.Schema.HasTypes && len(c.Schema.Types) == 1 {
+		switch c.Schema.Types[0] {
+		case "array":
+			kind = "arr"
+		case "object":
+			kind = "obj"
+		}
+	}
+	if c.In == "query" && len(c.Frag.Query) == 0 && c.definedCell(kind) {
+		// an absent parameter is absent whatever else the query carries
+		c.noise = true
+		o2 := runC05(c)
+		c.noise = false
+		if o2.Valid != o.Valid || o2.Found != o.Found {
+			out = append(out, [2]string{"absent-parameter-read-from-the-keys-of-others", fmt.Sprintf("empty query: valid=%d found=%v; query zzother=1: valid=%d found=%v value=%s %s",
+				o.Valid, o.Found, o2.Valid, o2.Found, o2.ValueText, o2.VErrS)})
+		}
+	}
 	if c.In == "path" {
 		raw, ok := c.Frag.Path[c.Name]
 		if !ok || raw == "" || strings.Contains(raw, "/") {
